@@ -105,11 +105,14 @@ def letters(h, dp):
           ('end_sequence', b'\x00\x01\x01'), ('set_address_1000', b'\x00' + leb.uleb(1 + a) + b'\x02' + dp.address(0x1000)),
           ('set_address_high', b'\x00' + leb.uleb(1 + a) + b'\x02' + dp.address(hi)),
           ('set_discriminator_5', b'\x00\x02\x04\x05'), ('unknown_ext_0', b'\x00\x01\x80'), ('unknown_ext_3', b'\x00\x04\x80\xaa\xbb\xcc'),
-          ('set_discriminator_padded_len', b'\x00\x04\x04\x85\x80\x00')]
+          ('set_discriminator_padded_len', b'\x00\x04\x04\x85\x80\x00'),
+          # extended opcodes whose LENGTH needs more than one ULEB128 byte: padded (0x83 0x00 = 3) and genuinely long (200 operand bytes)
+          ('unknown_ext_len_2bytes', b'\x00\x83\x00\x80\x0d\x01'), ('unknown_ext_200', b'\x00' + leb.uleb(201) + b'\x80' + bytes([1, 2, 3, 13] * 50))]
     # a standard opcode number >= opcode_base is a special opcode (covered by the special letters): drop its operand-carrying letter
     L = [(n, b) for n, b in L if not (1 <= b[0] <= 12 and b[0] >= h.opcode_base)]
     if h.version < 5:
         L.append(('define_file', b'\x00' + leb.uleb(1 + 6 + 3) + b'\x03' + b'def.c\0' + b'\x01\x02\x03'))
+        L.append(('define_file_long', b'\x00' + leb.uleb(1 + 131 + 3) + b'\x03' + b'd' * 130 + b'\0' + b'\x01\x02\x03'))
     if h.opcode_base > 13:
         n = h.std_lengths[12]
         L.append(('unknown_std_13', b'\x0d' + b''.join(leb.uleb(300 + k) for k in range(n))))
